@@ -36,11 +36,12 @@ func init() {
 		Rule: "cases = recorded concurrent histories (2-16 goroutines, 16-64 operations, random mixes, injected yields) of functionContainer {Get, Add, Replace, Remove, Len, Keys}, MutexMap {Get, Insert, Set, Remove, Len, Keys, Values}, Flag, Counter, Int64/Uint32/Uint64/String, each checked with porcupine against a sequential specification (unique values, per-key partition when no Len/Keys is involved), lost-update counts; a stress in which 8-16 goroutines execute all 23 functions through ONE factory-built container while one goroutine alternates two gas schedules through factory.GasScheduleChange, one fires EpochConfirmed and readers poll IsActive, under the Go race detector; every execution of a two-component function must be charged wholly by one of the two schedules. Non-trivial = history with at least two overlapping operations / priced execution; distinct = distinct histories (hash of the operation sequence with results) + steady flag histories (every write re-asserts the current value); destination legs in the stress; one ESDT-transfer parser and one call-arguments parser shared by 8 goroutines, results compared with those computed alone.",
 		Assumptions: []string{"Go race detector and porcupine v1.3.0 are the deciding tools; sampled schedules only", "concurrent GasScheduleChange with itself, with SetPayableHandler or with container construction is not claimed by the property and not run",
 			"call/return stamps come from one monotonic clock at the client boundary; the recorder's state is per goroutine and merged after the join"},
-		Batches:          tierN(8, 24),
-		DeathIsViolation: true,
-		TimeoutS:         func(tier string) int { return map[string]int{"quick": 400, "thorough": 1500}[tier] },
-		Floors:           map[string]int64{"C19/histories-linearizable:*": 1500, "C19/overlapping-histories": 300, "C19/stress-calls": 100000, "C19/priced-executions:*": 5000, "C19/schedule-changes": 200},
-		Run:              runC19,
+		Batches:           tierN(8, 24),
+		DeathIsViolation:  true,
+		OwnStallDetection: true,
+		TimeoutS:          func(tier string) int { return map[string]int{"quick": 400, "thorough": 1500}[tier] },
+		Floors:            map[string]int64{"C19/histories-linearizable:*": 1500, "C19/overlapping-histories": 300, "C19/stress-calls": 100000, "C19/priced-executions:*": 5000, "C19/schedule-changes": 200},
+		Run:               runC19,
 	})
 }
 
@@ -583,6 +584,9 @@ func runC19(c *harness.Ctx) {
 			h := runHistory(G2, func(g int, rec *recorder, rg *harness.Rand) {
 				for k := 0; k < per2; k++ {
 					x := fmt.Sprint("s", atomic.AddInt64(&uid, 1))
+					if rg.Chance(15) {
+						x = "" // the empty string is a value like any other: it replaces what was there
+					}
 					if rg.Bool() {
 						rec.do(regIn{Op: "set", S: x}, func() interface{} { v.Set(x); return regOut{} })
 					} else {
@@ -951,7 +955,7 @@ func c19Stress(c *harness.Ctx) {
 					// that checks against one and charges by the other would end above what it got
 					gas = 60000
 				}
-				switch rg.Intn(26) {
+				switch rg.Intn(29) {
 				case 0:
 					call(FTransfer, me, peer, mkIn(a.me, a.peer, gas, t, gen.Big(1)))
 				case 1:
@@ -1073,6 +1077,28 @@ func c19Stress(c *harness.Ctx) {
 						call(FNFTXfer, nil, peer, mkIn(a.me, a.peer, gas, t2, gen.U64(1), gen.Big(1), lastPayload))
 						call(FNFTXfer, nil, k, mkIn(a.me, k.Addr, gas, t2, gen.U64(1), gen.Big(1), lastPayload, []byte("fn")))
 						call(FMulti, nil, peer, mkIn(a.me, a.peer, gas, gen.Big(2), t2, []byte{0}, gen.Big(1), t2, gen.U64(1), lastPayload))
+					}
+				case 25, 26, 27:
+					// payability is decided per call: a plain transfer to this goroutine's contract (not
+					// payable) is refused whatever the other goroutines are doing at that moment -
+					// among them transfers that carry a call and are exempt from the question
+					notCredited := func(name string, out *vmcommon.VMOutput, err error) {
+						if err == nil && out != nil {
+							report("C19:non-payable-credited-under-concurrency:"+name, name+": a plain transfer to a contract that is not payable succeeded while other goroutines were executing exempt transfers on the same function object")
+						}
+						covers[g]["C19/plain-transfers-to-non-payable:"+name]++
+					}
+					if rg.Bool() {
+						call(FNFTXfer, me, me, mkIn(a.me, a.me, gas, t, gen.U64(1), gen.Big(1), k.Addr, []byte("fn")))
+						call(FMulti, me, me, mkIn(a.me, a.me, gas, k.Addr, gen.Big(1), t, gen.U64(1), gen.Big(1), []byte("fn")))
+						call(FTransfer, nil, k, mkIn(a.me, k.Addr, gas, t, gen.Big(1), []byte("fn")))
+					} else {
+						out, err := call(FNFTXfer, me, me, mkIn(a.me, a.me, gas, t, gen.U64(1), gen.Big(1), k.Addr))
+						notCredited(FNFTXfer, out, err)
+						out, err = call(FMulti, me, me, mkIn(a.me, a.me, gas, k.Addr, gen.Big(1), t, gen.U64(1), gen.Big(1)))
+						notCredited(FMulti, out, err)
+						out, err = call(FTransfer, nil, k, mkIn(a.me, k.Addr, gas, t, gen.Big(1)))
+						notCredited(FTransfer, out, err)
 					}
 				default:
 					call(FWipe, nil, peer, mkIn(gen.SysSC, a.peer, 0, []byte("NOT-HELD")))
